@@ -112,7 +112,9 @@ pub proof fn lemma_char_at_unique(s: Seq<char>, j: int, k1: int, k2: int)
 }
 pub proof fn lemma_line_col_bounds(s: Seq<char>, k: int)
     requires 0 <= k <= s.len(),
-    ensures 0 <= line_of(s, k) <= k, 0 <= col_of(s, k) <= 2 * k, //# lemma_line_col_bounds
+    ensures
+        0 <= line_of(s, k) <= k, //# lemma_line_col_bounds::line
+        0 <= col_of(s, k) <= 2 * k, //# lemma_line_col_bounds::column
     decreases k
 {
     if k > 0 { lemma_line_col_bounds(s, k - 1); }
